@@ -127,9 +127,9 @@ end
 
 /-! ### the unquote callback on a rebuilt node -/
 
-theorem unquoteCb_builtin (fuel : Nat) (store : Store) (env : MEnv) (name : String) (ps : List Node)
+theorem unquoteCb_builtin (lim : Limits) (store : Store) (env : MEnv) (name : String) (ps : List Node)
     (h : okUnquote env name ps = true) :
-    unquoteCb fuel store env (.builtin name ps) = .ok (substUnquote env name ps) := by
+    unquoteCb lim store env (.builtin name ps) = .ok (substUnquote env name ps) := by
   unfold okUnquote at h
   unfold substUnquote
   by_cases hn : name = "UNQUOTE"
@@ -177,8 +177,8 @@ theorem unquoteCb_builtin (fuel : Nat) (store : Store) (env : MEnv) (name : Stri
     · rfl
 
 /-- the unquote callback leaves every node that is not a builtin call alone -/
-theorem unquoteCb_other (fuel : Nat) (store : Store) (env : MEnv) (n : Node)
-    (h : ∀ name ps, n ≠ .builtin name ps) : unquoteCb fuel store env n = .ok n := by
+theorem unquoteCb_other (lim : Limits) (store : Store) (env : MEnv) (n : Node)
+    (h : ∀ name ps, n ≠ .builtin name ps) : unquoteCb lim store env n = .ok n := by
   unfold unquoteCb
   split
   · rename_i e
@@ -200,29 +200,29 @@ theorem modify_ret (f : Node → X Node) (v : Node) (h : v ≠ .none) :
 /-! ### `evalUnquoteCalls` is `subst` on templates whose unquotes name parameters -/
 
 mutual
-theorem modify_unquote (fuel : Nat) (store : Store) (env : MEnv) :
-    ∀ (t : Node), paramOnly env t = true → modify (unquoteCb fuel store env) t = .ok (subst env t)
+theorem modify_unquote (lim : Limits) (store : Store) (env : MEnv) :
+    ∀ (t : Node), paramOnly env t = true → modify (unquoteCb lim store env) t = .ok (subst env t)
   | .stmts l, h => by
     simp only [paramOnly] at h
-    simp only [modify, subst, modifyList_unquote fuel store env l h, ok_bind]
+    simp only [modify, subst, modifyList_unquote lim store env l h, ok_bind]
     exact unquoteCb_other _ _ _ _ (by intros; simp)
   | .inf op l r, h => by
     simp only [paramOnly, Bool.and_eq_true] at h
-    simp only [modify, subst, modify_unquote fuel store env l h.1, modify_unquote fuel store env r h.2, ok_bind]
+    simp only [modify, subst, modify_unquote lim store env l h.1, modify_unquote lim store env r h.2, ok_bind]
     exact unquoteCb_other _ _ _ _ (by intros; simp)
   | .pre op r, h => by
     simp only [paramOnly] at h
-    simp only [modify, subst, modify_unquote fuel store env r h, ok_bind]
+    simp only [modify, subst, modify_unquote lim store env r h, ok_bind]
     exact unquoteCb_other _ _ _ _ (by intros; simp)
   | .idx tok l i, h => by
     simp only [paramOnly, Bool.and_eq_true] at h
-    simp only [modify, subst, modify_unquote fuel store env l h.1, modify_unquote fuel store env i h.2, ok_bind]
+    simp only [modify, subst, modify_unquote lim store env l h.1, modify_unquote lim store env i h.2, ok_bind]
     exact unquoteCb_other _ _ _ _ (by intros; simp)
   | .ifE c a b, h => by
     simp only [paramOnly, Bool.and_eq_true] at h
-    have hc := modify_unquote fuel store env c h.1.1
-    have ha := modify_unquote fuel store env a h.1.2
-    have hb := modify_unquote fuel store env b h.2
+    have hc := modify_unquote lim store env c h.1.1
+    have ha := modify_unquote lim store env a h.1.2
+    have hb := modify_unquote lim store env b h.2
     by_cases hn : b = .none
     · subst hn
       simp only [modify, subst, hc, ha, ok_bind]
@@ -232,11 +232,11 @@ theorem modify_unquote (fuel : Nat) (store : Store) (env : MEnv) :
       exact unquoteCb_other _ _ _ _ (by intros; simp)
   | .forE c b, h => by
     simp only [paramOnly, Bool.and_eq_true] at h
-    simp only [modify, subst, modify_unquote fuel store env c h.1, modify_unquote fuel store env b h.2, ok_bind]
+    simp only [modify, subst, modify_unquote lim store env c h.1, modify_unquote lim store env b h.2, ok_bind]
     exact unquoteCb_other _ _ _ _ (by intros; simp)
   | .ret v, h => by
     simp only [paramOnly] at h
-    have hv := modify_unquote fuel store env v h
+    have hv := modify_unquote lim store env v h
     by_cases hn : v = .none
     · subst hn
       simp only [modify, subst]
@@ -246,27 +246,27 @@ theorem modify_unquote (fuel : Nat) (store : Store) (env : MEnv) :
       exact unquoteCb_other _ _ _ _ (by intros; simp)
   | .fn name ps variadic lambda key body, h => by
     simp only [paramOnly] at h
-    simp only [modify, subst, modify_unquote fuel store env body h, ok_bind]
+    simp only [modify, subst, modify_unquote lim store env body h, ok_bind]
     exact unquoteCb_other _ _ _ _ (by intros; simp)
   | .arr els, h => by
     simp only [paramOnly] at h
-    simp only [modify, subst, modifyList_unquote fuel store env els h, ok_bind]
+    simp only [modify, subst, modifyList_unquote lim store env els h, ok_bind]
     exact unquoteCb_other _ _ _ _ (by intros; simp)
   | .mapLit ks vs, h => by
     simp only [paramOnly, Bool.and_eq_true] at h
-    simp only [modify, subst, modifyList_unquote fuel store env ks h.1, modifyList_unquote fuel store env vs h.2, ok_bind]
+    simp only [modify, subst, modifyList_unquote lim store env ks h.1, modifyList_unquote lim store env vs h.2, ok_bind]
     exact unquoteCb_other _ _ _ _ (by intros; simp)
   | .builtin name ps, h => by
     simp only [paramOnly, Bool.and_eq_true] at h
-    simp only [modify, subst, modifyList_unquote fuel store env ps h.1, ok_bind]
+    simp only [modify, subst, modifyList_unquote lim store env ps h.1, ok_bind]
     exact unquoteCb_builtin _ _ _ _ _ h.2
   | .call fn args, h => by
     simp only [paramOnly, Bool.and_eq_true] at h
-    simp only [modify, subst, modify_unquote fuel store env fn h.1, modifyList_unquote fuel store env args h.2, ok_bind]
+    simp only [modify, subst, modify_unquote lim store env fn h.1, modifyList_unquote lim store env args h.2, ok_bind]
     exact unquoteCb_other _ _ _ _ (by intros; simp)
   | .macroLit ps body, h => by
     simp only [paramOnly] at h
-    simp only [modify, subst, modify_unquote fuel store env body h, ok_bind]
+    simp only [modify, subst, modify_unquote lim store env body h, ok_bind]
     exact unquoteCb_other _ _ _ _ (by intros; simp)
   | .ident _, _ => by simp only [modify, subst]; exact unquoteCb_other _ _ _ _ (by intros; simp)
   | .int _, _ => by simp only [modify, subst]; exact unquoteCb_other _ _ _ _ (by intros; simp)
@@ -277,55 +277,55 @@ theorem modify_unquote (fuel : Nat) (store : Store) (env : MEnv) :
   | .none, _ => by simp only [modify, subst]; exact unquoteCb_other _ _ _ _ (by intros; simp)
   | .ctl _, _ => by simp only [modify, subst]; exact unquoteCb_other _ _ _ _ (by intros; simp)
   | .comment, _ => by simp only [modify, subst]; exact unquoteCb_other _ _ _ _ (by intros; simp)
-theorem modifyList_unquote (fuel : Nat) (store : Store) (env : MEnv) :
-    ∀ (l : List Node), paramOnlyList env l = true → modifyList (unquoteCb fuel store env) l = .ok (substList env l)
+theorem modifyList_unquote (lim : Limits) (store : Store) (env : MEnv) :
+    ∀ (l : List Node), paramOnlyList env l = true → modifyList (unquoteCb lim store env) l = .ok (substList env l)
   | [], _ => by simp only [modifyList, substList]; rfl
   | x :: xs, h => by
     simp only [paramOnlyList, Bool.and_eq_true] at h
-    simp only [modifyList, substList, modify_unquote fuel store env x h.1, modifyList_unquote fuel store env xs h.2, ok_bind]
+    simp only [modifyList, substList, modify_unquote lim store env x h.1, modifyList_unquote lim store env xs h.2, ok_bind]
     rfl
 end
 
 /-! ### the expansion callback -/
 
-theorem expandCb_other (fuel : Nat) (store : Store) (n : Node)
-    (h : ∀ fn args, n ≠ .call fn args) : expandCb fuel store n = .ok n := by
+theorem expandCb_other (lim : Limits) (store : Store) (n : Node)
+    (h : ∀ fn args, n ≠ .call fn args) : expandCb lim store n = .ok n := by
   unfold expandCb
   split
   · exact absurd rfl (h _ _)
   · rfl
 
-theorem expandCb_notMacro (fuel : Nat) (store : Store) (fn : Node) (args : List Node)
-    (h : isMacroCall store fn = none) : expandCb fuel store (.call fn args) = .ok (.call fn args) := by
+theorem expandCb_notMacro (lim : Limits) (store : Store) (fn : Node) (args : List Node)
+    (h : isMacroCall store fn = none) : expandCb lim store (.call fn args) = .ok (.call fn args) := by
   simp only [expandCb, h]
   rfl
 
 /-! ### a program without macro calls is left as it is -/
 
 mutual
-theorem modify_noCalls (fuel : Nat) (store : Store) :
-    ∀ (t : Node), noCalls store t = true → modify (expandCb fuel store) t = .ok t
+theorem modify_noCalls (lim : Limits) (store : Store) :
+    ∀ (t : Node), noCalls store t = true → modify (expandCb lim store) t = .ok t
   | .stmts l, h => by
     simp only [noCalls] at h
-    simp only [modify, modifyList_noCalls fuel store l h, ok_bind]
+    simp only [modify, modifyList_noCalls lim store l h, ok_bind]
     exact expandCb_other _ _ _ (by intros; simp)
   | .inf op l r, h => by
     simp only [noCalls, Bool.and_eq_true] at h
-    simp only [modify, modify_noCalls fuel store l h.1, modify_noCalls fuel store r h.2, ok_bind]
+    simp only [modify, modify_noCalls lim store l h.1, modify_noCalls lim store r h.2, ok_bind]
     exact expandCb_other _ _ _ (by intros; simp)
   | .pre op r, h => by
     simp only [noCalls] at h
-    simp only [modify, modify_noCalls fuel store r h, ok_bind]
+    simp only [modify, modify_noCalls lim store r h, ok_bind]
     exact expandCb_other _ _ _ (by intros; simp)
   | .idx tok l i, h => by
     simp only [noCalls, Bool.and_eq_true] at h
-    simp only [modify, modify_noCalls fuel store l h.1, modify_noCalls fuel store i h.2, ok_bind]
+    simp only [modify, modify_noCalls lim store l h.1, modify_noCalls lim store i h.2, ok_bind]
     exact expandCb_other _ _ _ (by intros; simp)
   | .ifE c a b, h => by
     simp only [noCalls, Bool.and_eq_true] at h
-    have hc := modify_noCalls fuel store c h.1.1
-    have ha := modify_noCalls fuel store a h.1.2
-    have hb := modify_noCalls fuel store b h.2
+    have hc := modify_noCalls lim store c h.1.1
+    have ha := modify_noCalls lim store a h.1.2
+    have hb := modify_noCalls lim store b h.2
     by_cases hn : b = .none
     · subst hn
       simp only [modify, hc, ha, ok_bind]
@@ -335,11 +335,11 @@ theorem modify_noCalls (fuel : Nat) (store : Store) :
       exact expandCb_other _ _ _ (by intros; simp)
   | .forE c b, h => by
     simp only [noCalls, Bool.and_eq_true] at h
-    simp only [modify, modify_noCalls fuel store c h.1, modify_noCalls fuel store b h.2, ok_bind]
+    simp only [modify, modify_noCalls lim store c h.1, modify_noCalls lim store b h.2, ok_bind]
     exact expandCb_other _ _ _ (by intros; simp)
   | .ret v, h => by
     simp only [noCalls] at h
-    have hv := modify_noCalls fuel store v h
+    have hv := modify_noCalls lim store v h
     by_cases hn : v = .none
     · subst hn
       simp only [modify]
@@ -349,27 +349,27 @@ theorem modify_noCalls (fuel : Nat) (store : Store) :
       exact expandCb_other _ _ _ (by intros; simp)
   | .fn name ps variadic lambda key body, h => by
     simp only [noCalls] at h
-    simp only [modify, modify_noCalls fuel store body h, ok_bind]
+    simp only [modify, modify_noCalls lim store body h, ok_bind]
     exact expandCb_other _ _ _ (by intros; simp)
   | .arr els, h => by
     simp only [noCalls] at h
-    simp only [modify, modifyList_noCalls fuel store els h, ok_bind]
+    simp only [modify, modifyList_noCalls lim store els h, ok_bind]
     exact expandCb_other _ _ _ (by intros; simp)
   | .mapLit ks vs, h => by
     simp only [noCalls, Bool.and_eq_true] at h
-    simp only [modify, modifyList_noCalls fuel store ks h.1, modifyList_noCalls fuel store vs h.2, ok_bind]
+    simp only [modify, modifyList_noCalls lim store ks h.1, modifyList_noCalls lim store vs h.2, ok_bind]
     exact expandCb_other _ _ _ (by intros; simp)
   | .builtin name ps, h => by
     simp only [noCalls] at h
-    simp only [modify, modifyList_noCalls fuel store ps h, ok_bind]
+    simp only [modify, modifyList_noCalls lim store ps h, ok_bind]
     exact expandCb_other _ _ _ (by intros; simp)
   | .call fn args, h => by
     simp only [noCalls, Bool.and_eq_true, Option.isNone_iff_eq_none] at h
-    simp only [modify, modify_noCalls fuel store fn h.1.1, modifyList_noCalls fuel store args h.1.2, ok_bind]
+    simp only [modify, modify_noCalls lim store fn h.1.1, modifyList_noCalls lim store args h.1.2, ok_bind]
     exact expandCb_notMacro _ _ _ _ h.2
   | .macroLit ps body, h => by
     simp only [noCalls] at h
-    simp only [modify, modify_noCalls fuel store body h, ok_bind]
+    simp only [modify, modify_noCalls lim store body h, ok_bind]
     exact expandCb_other _ _ _ (by intros; simp)
   | .ident _, _ => by simp only [modify]; exact expandCb_other _ _ _ (by intros; simp)
   | .int _, _ => by simp only [modify]; exact expandCb_other _ _ _ (by intros; simp)
@@ -380,12 +380,12 @@ theorem modify_noCalls (fuel : Nat) (store : Store) :
   | .none, _ => by simp only [modify]; exact expandCb_other _ _ _ (by intros; simp)
   | .ctl _, _ => by simp only [modify]; exact expandCb_other _ _ _ (by intros; simp)
   | .comment, _ => by simp only [modify]; exact expandCb_other _ _ _ (by intros; simp)
-theorem modifyList_noCalls (fuel : Nat) (store : Store) :
-    ∀ (l : List Node), noCallsList store l = true → modifyList (expandCb fuel store) l = .ok l
+theorem modifyList_noCalls (lim : Limits) (store : Store) :
+    ∀ (l : List Node), noCallsList store l = true → modifyList (expandCb lim store) l = .ok l
   | [], _ => by simp only [modifyList]; rfl
   | x :: xs, h => by
     simp only [noCallsList, Bool.and_eq_true] at h
-    simp only [modifyList, modify_noCalls fuel store x h.1, modifyList_noCalls fuel store xs h.2, ok_bind]
+    simp only [modifyList, modify_noCalls lim store x h.1, modifyList_noCalls lim store xs h.2, ok_bind]
     rfl
 end
 
